@@ -15,6 +15,7 @@ pub fn run(ctx: &Ctx) -> Report {
         Plan { fam: "LIM", styles: two.clone(), debug: vec![true], stride: 1 },
         Plan { fam: "BLK", styles: two.clone(), debug: vec![true], stride: 1 },
         Plan { fam: "LAB", styles: plain.clone(), debug: vec![true], stride: 1 },
+        Plan { fam: "BIG", styles: plain.clone(), debug: vec![false, true], stride: 1 },
         Plan { fam: "UNI", styles: two.clone(), debug: vec![false, true], stride: 1 },
     ];
     run_plans(ctx, &mut rep, "C26", &plans, &|i| i.err_kind.is_some());
